@@ -103,11 +103,16 @@ class BitmapMetrics(NamedTuple):
         )
 
         # The FontTools errors when values are out of bounds are a bit nasty
-        # so check here for earlier and more helpful termination
-        assert (
-            config.bitmap_resolution in _UINT8_RANGE
-        ), f"bitmap_resolution out of bounds: {config.bitmap_resolution}"
-        assert metrics.y_offset in _INT8_RANGE, f"y_offset out of bounds: {metrics}"
+        # so check here for earlier and more helpful termination.
+        # These are limits of CBDT's 8 bit small metrics; sbix has 16 bit fields
+        # and does not use y_offset.
+        if config.color_format != "sbix":
+            assert (
+                config.bitmap_resolution in _UINT8_RANGE
+            ), f"bitmap_resolution out of bounds: {config.bitmap_resolution}"
+            assert (
+                metrics.y_offset in _INT8_RANGE
+            ), f"y_offset out of bounds: {metrics}"
 
         return metrics
 
